@@ -16,11 +16,18 @@ pub fn price_s(p: u32) -> i64 {
     }
 }
 
-pub fn end_s(t: u64) -> i64 {
+/// real time -> specification time (large-clock regime: a time that is not on the scaled grid is reported as it is)
+pub fn time_s(t: u64) -> Value {
+    let k = crate::TIME_SCALE.load(std::sync::atomic::Ordering::Relaxed);
+    let off = crate::TIME_OFFSET.load(std::sync::atomic::Ordering::Relaxed);
+    if k == 1 && off == 0 { json!(t) } else if t >= off && (t - off) % k == 0 { json!((t - off) / k) } else { json!(format!("{} (not a scaled specification time)", t)) }
+}
+
+pub fn end_s(t: u64) -> Value {
     if t == u64::MAX {
-        -1
+        json!(-1)
     } else {
-        t as i64
+        time_s(t)
     }
 }
 
@@ -52,7 +59,7 @@ pub fn order_tuple(o: &Order) -> Value {
     json!([
         side_s(o.side),
         status_s(o.status),
-        o.arr_time,
+        time_s(o.arr_time),
         end_s(o.end_time),
         vol_s(o.vol),
         vol_s(o.start_vol),
@@ -63,7 +70,7 @@ pub fn order_tuple(o: &Order) -> Value {
 
 pub fn trade_tuple(t: &Trade) -> Value {
     json!([
-        t.t,
+        time_s(t.t),
         side_s(t.side),
         price_s(t.price),
         vol_s(t.vol),
@@ -189,7 +196,7 @@ pub fn keys_value<const L: usize>(b: &OrderBook<L>) -> Vec<Value> {
 /// `Proj(b)` of the real book.
 pub fn book_proj<const L: usize>(b: &OrderBook<L>) -> Value {
     json!({
-        "now": b.get_time(),
+        "now": time_s(b.get_time()),
         "trading": trading_flag(b),
         "tvol": vol_s(b.get_trade_vol()),
         "orders": orders_value(&b.get_orders()),
